@@ -75,4 +75,14 @@ def specOut (retryIf : ε → Bool) (attempts : Nat) (rs : Nat → Res ε) : Out
   | .ok v => .ok v
   | .err e => .err e
 
+/-- The statement once the caller's context may end (`done k` = ended once k calls were made): the
+caller gets the result of the last call the statement prescribes (first success or last error), or —
+only when the context had ended in between attempts, after `c` calls that all returned retryable
+errors and before a further attempt — the context's cause after exactly those `c` calls.  A result
+obtained from the final attempt is never replaced by the context's error. -/
+def specAllowed (retryIf : ε → Bool) (attempts : Nat) (rs : Nat → Res ε) (done : Nat → Bool) :
+    List (Nat × Out ε) :=
+  (specCalls retryIf attempts rs, specOut retryIf attempts rs) ::
+    ((List.range (specCalls retryIf attempts rs)).filter done).map (fun c => (c, Out.ctx))
+
 end Specter.C15
